@@ -627,10 +627,12 @@ def run(ctx):
     ctx.extra['bounds'] = {
         'tier': ctx.tier,
         'enumerated': 'formula: all 3-level credit matrices nE x nS for %s; errors: nE<=%d, nS<=%d, 16 flag sets; '
-                      'lists: 8 answer sets x 6 flag sets, <=%d items; text: all texts <=%d symbols, 3 delimiters, '
-                      '3 answer forms; nested: 4 answer sets' % (
-                          '1x1..4, 2x1..4, 3x1..2' if ctx.quick else '1x1..6, 2x1..5, 3x1..3, 4x1..2',
-                          3 if ctx.quick else 4, 3 if ctx.quick else 5, 3 if ctx.quick else 5, 5 if ctx.quick else 7),
+                      'lists: 8 answer sets x 6 flag sets, <=%d items; text: all texts <=%s symbols, 3 delimiters, '
+                      '3 answer forms; nested: 4 answer sets x %d flag sets; dual: all %s credit matrices' % (
+                          '1x1..4, 2x1..4, 3x1..2' if ctx.quick else '1x1..6, 2x1..4, 3x1..3, 4x1..2',
+                          3 if ctx.quick else 4, 3 if ctx.quick else 4, 3 if ctx.quick else 4,
+                          '5' if ctx.quick else '6 (7 for the two-symbol delimiter ||)', 10 if ctx.quick else 24,
+                          '2x2' if ctx.quick else '3x3'),
         'random_records': len(recs), 'random_with_certificate': ncert, 'random_skipped': len(skipped),
         'random_sizes': 'flat 1-4 expected / 1-5 submitted; big 4-5 expected / up to 7 submitted; nested 1-3 x 1-3'}
     ctx.assumptions += [
